@@ -7,6 +7,7 @@
 From Coq Require Import String.
 From ChiaV.Base Require Import Bytes.
 From ChiaV.Stream Require Import Universe Versioned Codec CodecProofs Total ValText.
+From ChiaV.Gen Require Import StreamTypes.
 From Coq Require Import ZifyBool ZifyNat ZifyN.
 Open Scope N_scope.
 Local Opaque n2be.
@@ -516,3 +517,7 @@ Proof.
   rewrite Hr. split; [|lia]. replace (nlen bs - (nlen bs - n)) with n by lia.
   rewrite N.min_l by lia. destruct tr; lia.
 Qed.
+
+(* the 2 MiB of the model is the constant translated from chia-traits/src/streamable.rs on this run *)
+Lemma vec_limit_translated : MiB2 = vec_prealloc_limit_bytes.
+Proof. reflexivity. Qed.
